@@ -9,6 +9,7 @@ StepAct ==
      \/ Is("stats")  /\ Stats(Ev.recv, Ev.lost, Ev.last)
      \/ Is("report") /\ Report(Ev.cycles, Ev.seq, Ev.total, Ev.frac)
      \/ Is("e2e_restart") /\ RestartE2E(Ev.followed, Ev.after, Ev.S)
+     \/ Is("e2e_order") /\ OrderE2E(Ev.increasing, Ev.delivered, Ev.sent)
      \/ Is("end")    /\ UNCHANGED avars
   /\ AInv'
 
